@@ -161,7 +161,11 @@ class _Stream:
             self.written += bytes(b)
             return len(bytes(b))
 
-        return Sym("stream", {}, {"read": Host(read), "write": Host(write), "tell": Host(lambda: self.pos)})
+        def seek(pos, whence=0):
+            self.pos = pos if whence == 0 else (self.pos + pos if whence == 1 else len(self.data) + pos)
+            return self.pos
+
+        return Sym("stream", {}, {"read": Host(read), "write": Host(write), "tell": Host(lambda: self.pos), "seek": Host(seek)})
 
 
 def fold_leb128(repo: Repo) -> dict | None:
@@ -171,6 +175,14 @@ def fold_leb128(repo: Repo) -> dict | None:
     wr = repo.func("types/leb128.py", "LEB128._write")
     rd = repo.func("types/leb128.py", "LEB128._read")
     out: dict = {"cases": 0, "write_bad": [], "read_bad": [], "loop_bad": []}
+    base_env: dict[str, Any] = {}
+    for name, val in wr.module.assigns.items():
+        try:
+            v_ = Evaluator({}).ev(val, {})
+        except (Refused, Raised, TypeError, ValueError, KeyError):
+            continue
+        if isinstance(v_, (int, str, bytes)):
+            base_env[name] = v_
     try:
         for signed in (False, True):
             cls = Sym("leb", {"signed": signed}, {"__new__": Host(lambda c, v: v)})
@@ -178,7 +190,7 @@ def fold_leb128(repo: Repo) -> dict | None:
                 st = _Stream()
                 out["cases"] += 1
                 try:
-                    n = Evaluator({}, steps=4000).call_user(UserFunc(wr.node), [cls, st.sym(), v], {})
+                    n = Evaluator(base_env, steps=4000).call_user(UserFunc(wr.node), [cls, st.sym(), v], {})
                     got: Any = bytes(st.written)
                 except Raised:
                     got, n = "raise", None
@@ -193,9 +205,9 @@ def fold_leb128(repo: Repo) -> dict | None:
                 if got != want or n != len(want):
                     out["write_bad"].append((signed, v, got.hex() if isinstance(got, bytes) else got, want.hex()))
                 # the reader must give the value back from the reference encoding, consuming exactly those bytes
-                st = _Stream(want + b"\xaa")
+                st = _Stream(want + b"\xaa\x01\x02\x03\x04\x05\x06\x07\x08\x09")
                 try:
-                    r = Evaluator({}, steps=4000).call_user(UserFunc(rd.node), [cls, st.sym()], {})
+                    r = Evaluator(base_env, steps=4000).call_user(UserFunc(rd.node), [cls, st.sym()], {})
                 except Raised as e:
                     r = f"raise {e}"
                 except Exhausted:
@@ -206,7 +218,7 @@ def fold_leb128(repo: Repo) -> dict | None:
             # a truncated value must raise, not loop or return
             st = _Stream(b"\x80\x80")
             try:
-                r = Evaluator({}, steps=4000).call_user(UserFunc(rd.node), [cls, st.sym()], {})
+                r = Evaluator(base_env, steps=4000).call_user(UserFunc(rd.node), [cls, st.sym()], {})
                 out["read_bad"].append((signed, "truncated input 8080", "", r, st.pos))
             except Raised:
                 pass
@@ -237,7 +249,8 @@ def fold_structure_call(repo: Repo) -> dict | None:
         "one uint32 field": [fld("version", ftype("uint", 4))],
         "no fields": [],
     }
-    arglists = {"4 bytes": (b"abcd",), "6 bytes": (b"abcdef",), "no arguments": (), "an int": (5,)}
+    arglists = {"4 bytes": (b"abcd",), "6 bytes": (b"abcdef",), "no arguments": (), "an int": (5,), "a 4-byte bytearray": (bytearray(b"abcd"),),
+                "a 4-byte memoryview": (memoryview(b"abcd"),)}
     out: dict = {"cases": 0, "bad": []}
     try:
         for lname, fields in layouts.items():
@@ -264,12 +277,20 @@ def fold_structure_call(repo: Repo) -> dict | None:
                         return isinstance(t, Sym) and bool(t.attrs.get("is_bytes"))
                     raise Refused("issubclass against a non-builtin")
 
+                def isinst(o, k):
+                    ks = k if isinstance(k, tuple) else (k,)
+                    if all(x in (bytes, bytearray, memoryview, int, str) for x in ks):
+                        return isinstance(o, ks)
+                    raise Refused("isinstance against a non-builtin")
+
                 env = {"type": Sym("type", {}, {"__call__": Host(type_call)}), "object": Sym("object", {}, {"__setattr__": Host(setattr_)}),
-                       "super": Host(super_), "issubclass": Host(issub), "isinstance": Host(lambda o, k: k is bytes and isinstance(o, bytes)),
+                       "super": Host(super_), "issubclass": Host(issub), "isinstance": Host(isinst), "bytearray": bytearray, "memoryview": memoryview,
+                       **{q: UserFunc(f.node) for q, f in repo.module("types/base.py").functions.items() if "." not in q},
                        "getattr": Host(lambda o, n, *d: o.attrs.get(n, *d) if isinstance(o, Sym) else d[0]), "bytes": bytes}
                 cls = Sym("S", {"__fields__": fields})
                 Evaluator(env, steps=4000).call_user(UserFunc(fi.node), [cls, *args], {})
                 kinds = [t[0] for t in trace if t[0] in ("init", "parse")]
+                # only an immutable bytes object may be adopted as the value; a bytearray / memoryview must be parsed (the value would alias the caller's buffer)
                 single_bytes = len(fields) == 1 and fields[0].attrs["type"].attrs["is_bytes"] and args and isinstance(args[0], bytes) \
                     and len(args[0]) == fields[0].attrs["type"].attrs["size"]
                 want = ["init"] if (single_bytes or not args) else ["parse"]
@@ -344,6 +365,7 @@ def _layout_kinds() -> dict[str, dict]:
         "u8:3": {"size": 1, "align": 1, "bits": 3}, "u8:5": {"size": 1, "align": 1, "bits": 5}, "u16:4": {"size": 2, "align": 2, "bits": 4},
         "u32:12": {"size": 4, "align": 4, "bits": 12}, "e16:4": {"size": 2, "align": 2, "bits": 4, "enum_of": "u16"}, "u16:12": {"size": 2, "align": 2, "bits": 12},
         "u32@8": {"size": 4, "align": 4, "offset": 8}, "u8@1": {"size": 1, "align": 1, "offset": 1},
+        "u16:0": {"size": 2, "align": 2, "bits": 0},  # a zero-width member: every walker treats it as a plain field (truthiness of field.bits)
     }
 
 
